@@ -3021,6 +3021,10 @@ class TLSConnection(TLSRecordLayer):
                 # binder value, so `match` will be non-null
                 if ticket and self.version != ticket.protocol_version:
                     continue
+                # tickets are honoured only for the configured lifetime
+                if ticket and ticket.creation_time + \
+                        settings.ticketLifetime < time.time():
+                    continue
                 # check if PSK can be used with selected cipher suite
                 psk_hash = match[0][2] if len(match[0]) > 2 else 'sha256'
                 if psk_hash != prf_name:
